@@ -659,6 +659,71 @@ def oracle_matsubara_triangle(obj, point, dt, t1):
 KEY_MATS_TRI = "imaginary time, upper-triangle at time_1 != 0 vs integration of the Matsubara correlation()"
 
 
+# --- low temperature, imaginary time up to beta -----------------------------------------------
+LOW_T_POINTS = [
+    # alpha, zeta, wc, cutoff type, T/wc   (the overflow-guard crossover w/T = 36 lies inside the
+    #                                       support of J for all of them)
+    (0.3, 1.0, 1.0, "exponential", 0.05),
+    (0.3, 0.5, 1.0, "exponential", 0.1),
+    (0.3, 3.0, 1.0, "gaussian", 0.05),
+    (0.5, 1.0, 2.0, "hard", 0.1),
+    (0.4, 2.0, 1.5, "gaussian", 0.2),
+]
+
+
+def oracle_low_T(stream, tier="quick"):
+    """imaginary time at T <= 0.2 cutoff: C_M(tau) = C_M(beta - tau) on a grid up to beta
+    (1e-8; unchanged code 2e-15), and the cells just below beta -- last squares, offset
+    upper-triangle -- vs minus the direct integral of the object's own Matsubara correlation
+    (1e-7 of the cell + 1e-9 of the eta terms; unchanged code 1e-10 / 3e-13)"""
+    from oqupy.bath_correlations import PowerLawSD
+    pts = LOW_T_POINTS[:3] if tier == "quick" else LOW_T_POINTS
+    for (alpha, zeta, wc, ct, tr) in pts:
+        T = tr * wc
+        beta = 1.0 / T
+        point = (alpha, zeta, wc, ct, tr, 0.0)
+        with stream("low-T matsubara"):
+            obj = PowerLawSD(alpha, zeta, wc, ct, T)
+            bad = None
+            for f in (0.0, 0.02, 0.1, 0.3, 0.45):
+                c1 = float(obj.correlation(f * beta, matsubara=True))
+                c2 = float(obj.correlation((1 - f) * beta, matsubara=True))
+                if not abs(c1 - c2) <= 1e-8 * abs(c1):
+                    bad = {"tau/beta": f, "C_M(tau)": c1, "C_M(beta-tau)": c2}
+                    break
+        key = "imaginary time, T/cutoff <= 0.2: C_M(tau) = C_M(beta - tau) (%s cutoff)" % ct
+        if bad is not None:
+            bad.update({"class": "PowerLawSD", "alpha": alpha, "zeta": zeta, "cutoff": wc, "cutoff_type": ct,
+                        "temperature": T,
+                        "how": "obj.correlation(tau, matsubara=True) vs obj.correlation(1/T - tau, matsubara=True)"})
+        yield key, bad
+        dt = beta / 16
+        cells = [("square", beta - dt), ("upper-triangle", beta - 1.5 * dt), ("square", beta - 2 * dt),
+                 ("square", 0.5 * beta)]
+        with stream("low-T matsubara"):
+            bad = None
+            for (shape, t1) in cells[:(2 if tier == "quick" else 4)]:
+                v = complex(obj.correlation_2d_integral(dt, t1, None, shape, matsubara=True))
+                d = -direct_cell(lambda t: obj.correlation(t, matsubara=True), shape, dt, t1, None, 7)
+                terms = sum(abs(obj.eta_function(t, matsubara=True)) for t in (t1 + dt, t1, t1 - dt))
+                tol = 1e-7 * abs(d) + 1e-9 * terms
+                if not abs(v - d) <= tol:
+                    bad = {"shape": shape, "delta": dt, "time_1": t1, "time_1/beta": t1 / beta,
+                           "correlation_2d_integral": [v.real, v.imag],
+                           "minus_direct_integration_of_matsubara_correlation": [d.real, d.imag],
+                           "difference": abs(v - d), "allowed": tol}
+                    break
+        key = "imaginary time, T/cutoff <= 0.2: cells just below beta vs integration of the " \
+              "Matsubara correlation() (%s cutoff)" % ct
+        if bad is not None:
+            bad.update({"class": "PowerLawSD", "alpha": alpha, "zeta": zeta, "cutoff": wc, "cutoff_type": ct,
+                        "temperature": T, "matsubara": True,
+                        "how": "obj.correlation_2d_integral(delta, time_1, shape=.., matsubara=True) vs "
+                               "-(tensor Gauss-Legendre integral of obj.correlation(t'-t'', matsubara=True) "
+                               "over the documented region)"})
+        yield key, bad
+
+
 class WarningLog:
     """counts scipy IntegrationWarnings raised inside oqupy/bath_correlations.py, per phase"""
 
@@ -940,7 +1005,12 @@ def correspondence(res, tier, rng):
         res.count("gapped-j:" + key.split("(")[1].split(" ")[0])
         if bad is not None:
             res.disagree(key, bad)
-    mark("(g) scale covariance, memo tie, gapped j")
+    for key, bad in oracle_low_T(wlog, tier):
+        res.case(key + " #%d" % res.cases, True)
+        res.count("low-T-matsubara")
+        if bad is not None:
+            res.disagree(key, bad)
+    mark("(g) scale covariance, memo tie, gapped j, low-T imaginary time")
     phase("(a) shape calls")
 
     points = list(QUICK_POINTS)
@@ -1248,6 +1318,10 @@ def search(res, rng=None, budget_points=None):
         if bad is not None and key not in seen:
             seen.add(key)
             res.fail(key, bad)
+    for key, bad in oracle_low_T(WarningLog(), res.tier):
+        if bad is not None and key not in seen:
+            seen.add(key)
+            res.fail(key, bad)
     # scale covariance, memo tie
     import itertools
     for key, bad in itertools.chain(oracle_scale(WarningLog()), oracle_coupling(WarningLog())):
@@ -1363,6 +1437,12 @@ def replay_case(res, payload):
                 res.fail(k, bad)
                 return True
         return False
+    if key.startswith("imaginary time, T/cutoff"):
+        for k, bad in oracle_low_T(WarningLog(), "thorough"):
+            if bad is not None and k == key:
+                res.fail(k, bad)
+                return True
+        return False
     if key.startswith("CustomSD with a j-function"):
         for k, bad in oracle_gaps(WarningLog(), "thorough"):
             if bad is not None and k == key:
@@ -1427,7 +1507,9 @@ def run(tier, seed, replay):
         "rect[a,b] + rect[b,a+delta] = square(a); CustomSD with gapped / band-limited j-functions "
         "(zero below a, zero at cutoff/2, zero beyond b; all cutoff types, T = 0 and > 0): "
         "correlation() and cells vs an independent composite Gauss-Legendre frequency integral "
-        "of spectral_density().  Distinct = distinct "
+        "of spectral_density(); imaginary time at T/cutoff in {0.05, 0.1, 0.2}: C_M(tau) = "
+        "C_M(beta - tau) up to beta (1e-8) and the cells just below beta vs integration of the "
+        "Matsubara correlation (1e-7 of the cell + 1e-9 of the terms).  Distinct = distinct "
         "protocol line / oracle call; non-trivial = a shape call that used >= 2 eta values, any "
         "integrand/oracle evaluation.")
     res.assumptions = [
